@@ -175,6 +175,12 @@ Fixpoint get_journals_of {A : Type} (opens : A -> bool) (maxl : nat) (visit acc 
 Definition get_journals_o {A : Type} (opens : A -> bool) (maxl : nat) (matching : list A) : option (list A) :=
   get_journals_of opens maxl matching [].
 
+(* tindex Visit (inmem.go visitWaitingIfLocked) walks over a snapshot of the matching partitions taken at its start; a
+   partition that was removed from the index after the snapshot (TRUNCATE dropped it, Delete) is skipped when the walk
+   reaches it, the walk goes on with the next one. `removed x`: x is gone when the visit reaches it. *)
+Definition get_journals_r {A : Type} (removed opens : A -> bool) (maxl : nat) (snapshot : list A) : option (list A) :=
+  get_journals_o opens maxl (filter (fun x => negb (removed x)) snapshot).
+
 (* srcs: the matching sources in the order newCursor's map iteration meets them *)
 Definition new_cursor (srcs : list (nat * leaf)) (f : option flt) (p : posspec) : option cursor :=
   match get_journals merge_limit srcs with
